@@ -37,6 +37,16 @@ WDestroy(w) == \E t \in wLive[w] :
     /\ wDs' = Log(wDs, w, t)
     /\ UNCHANGED <<wEx, wCr>>
 
+\* a destroying loop removes a non-empty set of live tokens, each logged once, in some order
+IsPermOf(q, F) == Len(q) = Cardinality(F) /\ Range(q) = F
+WDestroyMany(w) == \E F \in (SUBSET wLive[w]) \ {{}} :
+    /\ wEx[w]
+    /\ wLive' = [wLive EXCEPT ![w] = @ \ F]
+    /\ IF WithEvents
+       THEN \E n \in 1..Cardinality(F) : \E q \in [1..n -> F] : IsPermOf(q, F) /\ wDs' = [wDs EXCEPT ![w] = @ \o q]
+       ELSE wDs' = wDs
+    /\ UNCHANGED <<wEx, wCr>>
+
 \* clone (dst did not exist) and clone_from (it did): dst becomes an exact copy, src is untouched
 WClone(src, dst) ==
     /\ src # dst /\ wEx[src]
@@ -58,7 +68,7 @@ WClear(w) ==
     /\ wDs' = [wDs EXCEPT ![w] = <<>>]
     /\ UNCHANGED <<wEx, wLive>>
 
-WNext == \E w \in Worlds : WCreate(w) \/ WDestroy(w) \/ WDrop(w) \/ WClear(w) \/ (\E v \in Worlds : WClone(w, v))
+WNext == \E w \in Worlds : WCreate(w) \/ WDestroy(w) \/ WDestroyMany(w) \/ WDrop(w) \/ WClear(w) \/ (\E v \in Worlds : WClone(w, v))
 WSpec == WInit /\ [][WNext]_wvars
 
 \* what the abstract machine guarantees on its own
